@@ -13,6 +13,9 @@ package requestmanager
 //@   modifies inProgressRequestStatus.traverserCancel, inProgressRequestStatus.traverser, inProgressRequestStatus.reconciledLoader,
 //@            inProgressRequestStatus.state, alloc, Budget.NodeBudget, Budget.LinkBudget
 //@   watch globalMax: rm.maxLinksPerRequest
+//@   -- C23: a task is handed out exactly for a tracked request, which is then Running
+//@   ensures result.Empty <==> !old(requestID in rm.inProgressRequestStatuses)
+//@   ensures !result.Empty ==> requestID in rm.inProgressRequestStatuses && rm.inProgressRequestStatuses[requestID].state == graphsync.Running
 //@   callsite TraversalBuilder.Start: assert
 //@        let g := rm.maxLinksPerRequest :: let r := ipr.maxLinks ::
 //@        let eff := ite(g == 0, r, ite(r != 0 && r < g, r, g)) ::
@@ -166,3 +169,31 @@ package requestmanager
 //@   callsite ReconciledLoader.IngestResponse: assert owned(rm, p, response.requestID)
 //@   callsite RequestManager.processTerminations: assert forall j int :: 0 <= j && j < len($responses) ==> owned(rm, p, $responses[j].requestID)
 //@   loop 3 invariant forall j int :: 0 <= j && j < len(filteredResponses) ==> owned(rm, p, filteredResponses[j].requestID)
+
+//@ -- ============================ C23 / C21: recorded state moves together with the task queue ============================
+//@ -- a released task is ALWAYS reported done to the queue, exactly once; a pause keeps the request (Paused), anything else retires it
+//@ func RequestManager.releaseRequestTask
+//@   lenient
+//@   safety off
+//@   requires invRM(rm)
+//@   modifies inProgressRequestStatus.state, rm.inProgressRequestStatuses[*], closedErr, closedProg, alloc, nTaskDone
+//@   ensures invRM(rm) && nTaskDone == old(nTaskDone) + 1
+//@   callsite TaskQueue.TaskDone: assert $p == p && $task == task
+//@ -- an empty task (its request is gone) is reported done at once
+//@ func RequestManager.getRequestTask
+//@   lenient
+//@   safety off
+//@   modifies inProgressRequestStatus.traverserCancel, inProgressRequestStatus.traverser, inProgressRequestStatus.reconciledLoader,
+//@            inProgressRequestStatus.state, alloc, Budget.NodeBudget, Budget.LinkBudget, nTaskDone
+//@   ensures result.Empty <==> (nTaskDone == old(nTaskDone) + 1)
+//@   ensures !result.Empty ==> nTaskDone == old(nTaskDone)
+//@ -- Paused -> Queued goes together with exactly one push of the request's task for its peer
+//@ func RequestManager.unpause
+//@   lenient
+//@   safety off
+//@   requires invRM(rm)
+//@   modifies inProgressRequestStatus.state, inProgressRequestStatus.request, alloc, nPush
+//@   ensures (result == nil) <==> (nPush == old(nPush) + 1)
+//@   ensures result == nil ==> old(id in rm.inProgressRequestStatuses) && old(rm.inProgressRequestStatuses[id].state) == graphsync.Paused && rm.inProgressRequestStatuses[id].state == graphsync.Queued
+//@   ensures result != nil ==> nPush == old(nPush)
+//@   callsite TaskQueue.PushTask argis "peertask.Task{Topic: id": assert $p == inProgressRequestStatus.p
